@@ -1,5 +1,5 @@
 (** Correspondence glue for C07. No logic of the kernels lives here. *)
-From Sq Require Import Base.Corr Sched.Model Sched.PureModel.
+From Sq Require Import Base.Corr Sched.Model Sched.PureModel Sched.VerdictModel.
 
 (** group [sched]: one [lint_paths] call.
     args = (expansion of each argument (file ids), ignored file ids, reference results (file id, result id)
@@ -58,3 +58,14 @@ Definition rev_eqb (a b : rev_t) : bool :=
 Definition check_lintloop (a : loop_args) (exp : bool * list rev_t) : bool :=
   Bool.eqb (fst (model_loop a)) (fst exp) && list_eqb rev_eqb (snd (model_loop a)) (snd exp).
 Definition case_t_lintloop : Type := (N * loop_args * (bool * list rev_t))%type.
+
+(** group [verdict]: one invocation with an [OutputStreamFormatter] attached.
+    args = (verbosity as (negative?, magnitude), the (fails, warns) of every file of the result in stored order)
+    expected = (has_fail, files_dispatched) read from the formatter afterwards *)
+Definition verdict_args : Type := (bool * N * list (N * N))%type.
+Definition dec_verbosity (neg : bool) (m : N) : Z := if neg then Z.opp (Z.of_N m) else Z.of_N m.
+Definition model_verdict (a : verdict_args) : bool * N :=
+  let '(neg, m, files) := a in dispatch_all (dec_verbosity neg m) files.
+Definition check_verdict (a : verdict_args) (exp : bool * N) : bool :=
+  Bool.eqb (fst (model_verdict a)) (fst exp) && (snd (model_verdict a) =? snd exp).
+Definition case_t_verdict : Type := (N * verdict_args * (bool * N))%type.
